@@ -422,7 +422,7 @@ class kLeastAbsErrors(pathmodel.AbstractPathModelDAG):
         non_empty_paths = []
         non_empty_weights = []
         for path, weight in zip(solution["paths"], solution["weights"]):
-            if len(path) > 1:
+            if len(path) > 1 or (len(path) == 1 and self.flow_attr_origin == "node"):
                 non_empty_paths.append(path)
                 non_empty_weights.append(weight)
 
